@@ -1,7 +1,7 @@
 (* PropC06.v — C06: WAL files are reclaimed as soon as nothing retained lives in them. wr_ok = the tracked files are a contiguous run ending at the file being written.
    Statements only; each theorem is closed by `exact <lemma>`; proofs live in the imported files. *)
 From Coq Require Import Lia NArith List.
-From MRL Require Import Bytes Params Names Frame Record Mem Rolling Log Hist GcProofs.
+From MRL Require Import Bytes Params Names Frame Record Mem Rolling Log Hist GcProofs GhostLog ReplaySpec HandleProofs.
 
 (* the GC loop removes exactly a prefix of unreferenced files, unlinks them in order, and never stops early (one file left, or the first one left is referenced) *)
 Theorem C06_gc_loop :
@@ -72,4 +72,46 @@ Theorem C06_gc_no_err :
     wr_ok w -> dir_ok w -> w_file w <= U64_MAX -> r = Ok tt.
 Proof. exact gc_loop_no_err. Qed.
 Print Assumptions C06_gc_no_err.
+
+(* the Option<FileNumber> handles: after replaying any entry log, the file in which the entry of EVERY retained record was written is referenced by some record handle (the last record of each run holds it) *)
+Theorem C06_handles_cover_records :
+    forall (fes : glog) (qs : queues) (F : tmap) (q : bytes) (rf : list trec) (n : N) (r : trec),
+    replay_entries [] fes = Some qs ->
+    t_replay [] 0 (map snd fes) = Some F ->
+    t_get F q = Some (rf, n) -> In r rf -> qs_ref (file_of fes (fst r)) qs = true.
+Proof. exact tagged_record_file_referenced. Qed.
+Print Assumptions C06_handles_cover_records.
+
+(* hence a file that no handle references holds the entry of no retained record: deleting it loses nothing *)
+Theorem C06_unreferenced_file_is_empty :
+    forall (fes : glog) (qs : queues) (F : tmap) (f : N),
+    replay_entries [] fes = Some qs ->
+    t_replay [] 0 (map snd fes) = Some F ->
+    qs_ref f qs = false ->
+    forall (q : bytes) (rf : list trec) (n : N) (r : trec),
+    t_get F q = Some (rf, n) -> In r rf -> file_of fes (fst r) <> f.
+Proof. exact unreferenced_file_no_tagged_record. Qed.
+Print Assumptions C06_unreferenced_file_is_empty.
+
+(* the same invariant is kept by every live call *)
+Theorem C06_live_handles :
+    forall (P : params) (st : state) (L : glog) (o : op) (tick : bool) (st' : state)
+    (L' : glog) (out : outcome) (am : amap),
+    nodup_names (s_qs st) ->
+    attr_inv am (s_qs st) ->
+    gstep P (st, L) o tick = (st', L', out) ->
+    (forall e : ioerr, out <> OutIo e) ->
+    exists (es : list (N * entry)) (am' : amap),
+    L' = L ++ es /\ a_replay am (s_qs st) es = Some (am', s_qs st') /\ attr_inv am' (s_qs st').
+Proof. exact live_step_attr_inv. Qed.
+Print Assumptions C06_live_handles.
+
+(* and after GC every retained record was written in a kept file *)
+Theorem C06_attrs_ge_first_kept :
+    forall (fes : glog) (am : amap) (qs : queues) (lo : N),
+    a_replay [] [] fes = Some (am, qs) ->
+    (forall f : N, In f (map fst fes) -> f < lo -> qs_ref f qs = false) ->
+    forall (q : bytes) (attrs : list N), g_get am q = Some attrs -> Forall (fun a : N => lo <= a) attrs.
+Proof. exact attrs_ge_first_kept. Qed.
+Print Assumptions C06_attrs_ge_first_kept.
 
